@@ -431,7 +431,7 @@ class Ctx:
         ev = {"property_id": self.pid, "tier": self.tier, "seed": self.seed, "level": self.level,
               "coverage": cov, "assumptions": self.assumptions, "wall_s": round(time.time() - self.t0, 1),
               "violations": len(real)}
-        evdir = os.path.join(VERIF, "evidence") if (REPO == "/repo" and re.match(r"^C\d+$", self.pid)) else os.environ.get("VERIF_EVIDENCE_DIR", "/tmp/verif_mut_evidence")
+        evdir = os.path.join(VERIF, "evidence") if (REPO == "/repo" and re.match(r"^[CX]\d+$", self.pid)) else os.environ.get("VERIF_EVIDENCE_DIR", "/tmp/verif_mut_evidence")
         os.makedirs(evdir, exist_ok=True)
         with open(os.path.join(evdir, self.pid + ".json"), "w") as fh:
             json.dump(ev, fh, indent=1, default=str)
